@@ -289,7 +289,9 @@ def run(chk):
                 continue
             if mt != rec["text"]:
                 chk.disagree("ModelRepr.hy_repr_model vs hy.repr", src[:300], mt[:300], rec["text"][:300])
-XX, rec["text"][:300], mr[:300], rec["read"][:300])
+            # hy.read stops after the first form; what the model leaves unread is not compared
+            if mr.rsplit("|", 1)[0] != rec["read"].rsplit("|", 1)[0]:
+                chk.disagree("Reader.read_one vs hy.read on the printed text", rec["text"][:300], mr[:300], rec["read"][:300])
             ok, observed = roundtrip(m)
             if not ok:
                 classes = sorted(diagnose(m))
